@@ -467,7 +467,7 @@ pub fn generate_c15(run_seed: u64, thorough: bool, faults: bool) -> ListDesc {
         m.heap.new_list(inner_init[k].clone());
     }
     let script_ok = |op: &Op| -> bool { !matches!(op, Op::IterConsume { .. } | Op::IterWithPush { .. } | Op::InnerPush { .. } | Op::FromVec { .. } | Op::CloneH { .. } | Op::DropH { .. } | Op::ToVec { .. } | Op::Iter { .. } | Op::Debug { .. }) };
-    let rust_ok = |op: &Op| -> bool { !matches!(op, Op::FromVecScript { .. } | Op::LoopLit { .. } | Op::ForRebind { .. } | Op::PlusAssign { .. } | Op::GetMove { .. } | Op::TmpGet { .. } | Op::BranchLit { .. } | Op::Lit9 { .. } | Op::Join { .. } | Op::ForCount { .. } | Op::ForSum { .. } | Op::ForPush { .. } | Op::ForFind { .. }) };
+    let rust_ok = |op: &Op| -> bool { !matches!(op, Op::FromVecScript { .. } | Op::LoopLit { .. } | Op::LitTry { .. } | Op::ForRebind { .. } | Op::PlusAssign { .. } | Op::GetMove { .. } | Op::TmpGet { .. } | Op::BranchLit { .. } | Op::Lit9 { .. } | Op::Join { .. } | Op::ForCount { .. } | Op::ForSum { .. } | Op::ForPush { .. } | Op::ForFind { .. }) };
     // "observe, mutate, observe again": after a query, sometimes one of its lists is changed and
     // the very same query repeated - the shape that catches anything remembered between calls
     let mut followups: std::collections::VecDeque<(Op, Origin)> = std::collections::VecDeque::new();
@@ -483,7 +483,8 @@ pub fn generate_c15(run_seed: u64, thorough: bool, faults: bool) -> ListDesc {
             g.next_val += 1;
             Op::InnerPush { inner: g.r.below(n_inner as u64) as usize, v: 100 + g.next_val }
         } else if filled.is_empty() || g.r.chance(1, 12) {
-            match g.r.below(5) {
+            match g.r.below(6) {
+                5 if !matches!(elem, ElemKind::OptU64 | ElemKind::OptStr) => Op::LitTry { dst: any(&mut g), v: fresh(&mut g), some: g.r.chance(1, 2) },
                 4 => Op::BranchLit { dst: any(&mut g), c: g.r.chance(1, 2), vals: (0..2).map(|_| fresh(&mut g)).collect(), shape: g.r.below(2) as u8 },
                 0 => Op::New { dst: any(&mut g) },
                 1 => {
@@ -784,6 +785,7 @@ pub fn op_label(op: &Op, origin: &Origin) -> String {
         Op::ForFind { .. } => "for-find",
         Op::IndexGot { .. } => "index-of-got-element",
         Op::PushMany { .. } => "five-pushes",
+        Op::LitTry { .. } => "literal-with-early-exit",
         Op::LoopLit { .. } => "literals-in-loops",
     };
     format!("{}:{}", if *origin == Origin::Script { "script" } else { "rust" }, name)
@@ -1271,7 +1273,7 @@ pub fn shrink(d: &ListDesc) -> Vec<ListDesc> {
     for t in 0..d.threads.len() {
         for k in 0..d.threads[t].ops.len() {
             let (op, origin) = &d.threads[t].ops[k];
-            if *origin == Origin::Script && !matches!(op, Op::Join { .. } | Op::ForCount { .. } | Op::ForSum { .. } | Op::ForPush { .. } | Op::ForFind { .. } | Op::Concat { plus: true, .. } | Op::Eq { ne: true, .. } | Op::Lit3 { .. } | Op::Lit9 { .. } | Op::BranchLit { .. } | Op::TmpGet { .. } | Op::GetMove { .. } | Op::ForRebind { .. } | Op::PlusAssign { .. } | Op::FromVecScript { .. } | Op::LoopLit { .. }) {
+            if *origin == Origin::Script && !matches!(op, Op::Join { .. } | Op::ForCount { .. } | Op::ForSum { .. } | Op::ForPush { .. } | Op::ForFind { .. } | Op::Concat { plus: true, .. } | Op::Eq { ne: true, .. } | Op::Lit3 { .. } | Op::Lit9 { .. } | Op::BranchLit { .. } | Op::TmpGet { .. } | Op::GetMove { .. } | Op::ForRebind { .. } | Op::PlusAssign { .. } | Op::FromVecScript { .. } | Op::LoopLit { .. } | Op::LitTry { .. }) {
                 let mut c = d.clone();
                 c.threads[t].ops[k].1 = Origin::Rust;
                 out.push(c);
